@@ -17,6 +17,7 @@ var c16Chunks = []string{
 	"\x00", "\x1f", "\x7f", "\n", "\u00e9", "\uffff", "\U0001F600",
 	`\n`, "\\u0041", `\ud83d`, `\ude00`, // escape-like texts taken literally as key characters
 	"&", "|", ">", "#", "%",
+	"\ufffd", // also reachable through lone-surrogate escapes
 }
 
 // c16Core: the sub-alphabet used for longer keys.
@@ -51,7 +52,6 @@ func c16Keys(tier string) []string {
 		add(strings.Repeat(c, 12))
 		add(strings.Repeat("a"+c, 6))
 	}
-	add("�") // also reachable through lone-surrogate escapes
 	return out
 }
 
@@ -76,9 +76,29 @@ func c16Spellings(k string) map[string]string {
 	if gen.DotRepresentable(k) {
 		sp["dot"] = "." + gen.DotEscape(k)
 	}
-	if k == "�" {
-		sp["sq-lone-surrogate"] = `['\ud83d']`
-		sp["dq-lone-surrogate"] = `["\udE00"]`
+	if strings.ContainsRune(k, 0xfffd) {
+		// every U+FFFD written as a lone surrogate escape (JSON decoding turns it into U+FFFD),
+		// every other character as a \uXXXX escape, so that a lone surrogate is directly followed by
+		// another escape
+		for name, lone := range map[string]string{"sq-lone-high": `\ud834`, "dq-lone-low": `\udd1e`} {
+			var lb strings.Builder
+			for _, r := range k {
+				switch {
+				case r == 0xfffd:
+					lb.WriteString(lone)
+				case r > 0xffff:
+					r1, r2 := utf16.EncodeRune(r)
+					fmt.Fprintf(&lb, `\u%04x\u%04x`, r1, r2)
+				default:
+					fmt.Fprintf(&lb, `\u%04X`, r)
+				}
+			}
+			if name[0] == 's' {
+				sp[name] = "['" + lb.String() + "']"
+			} else {
+				sp[name] = `["` + lb.String() + `"]`
+			}
+		}
 	}
 	return sp
 }
